@@ -109,6 +109,11 @@ type GenOpts struct {
 	// on small pages, so that the parent is resumed on several pages and avoid-rewinds
 	// (findEarlierPageBreak) happen on its continuation pages
 	LongParent bool
+	// WrapperBottom: a wrapper block with bottom padding / border only, made of paragraphs, after a first
+	// paragraph, sized so that its content ends within its bottom decoration of the page bottom
+	// (the `canBreak && borderPageOverflow` branch of inFlowLayout: second layout with more bottom space)
+	WrapperBottom bool
+	PageH         float64 // > 0: the content-box height of the pages (the caller's @page rule gives it)
 }
 
 type gen struct {
@@ -262,8 +267,14 @@ func GenClassF(r *rng.R, o GenOpts, pageCSS string) *ClassF {
 	if o.LongParent {
 		h = float64(40 + r.Intn(4)*20)
 	}
-	if r.P(1, 5) {
+	if r.P(1, 5) && !o.WrapperBottom {
 		h += float64(r.Intn(4) * 5)
+	}
+	if o.PageH > 0 {
+		h = o.PageH
+	}
+	if o.WrapperBottom && h < 60 {
+		h = 60
 	}
 	if pageCSS == "" {
 		pageCSS = fmt.Sprintf(`@page{size:200px %spx;margin:10px}`, fnum(h+20))
@@ -274,6 +285,48 @@ func GenClassF(r *rng.R, o GenOpts, pageCSS string) *ClassF {
 	k := 1 + r.Intn(5)
 	if o.LongParent {
 		k = 1 + r.Intn(2)
+	}
+	if o.WrapperBottom {
+		k = 0
+		lines := int(h) / 20
+		a := 1 + r.Intn(lines-2)
+		pb, bbw := float64(5*(1+r.Intn(6))), float64(2*r.Intn(3))
+		short := 0
+		if pb+bbw > 20 && r.P(1, 3) {
+			short = 1 // the content ends one line above the page bottom, the decoration still overflows
+		}
+		para := func(n int, parent *Box) *Box {
+			p := &Box{St: Style{BI: "auto", BB: "auto", BA: "auto", Orph: 1, Wid: 1, Pg: parent.St.Pg}, Lines: []int{}}
+			g.buf.WriteString(`<div style="orphans:1;widows:1">`)
+			for j := 0; j < n; j++ {
+				if j > 0 {
+					g.buf.WriteString("<br>")
+				}
+				g.n++
+				p.Lines = append(p.Lines, g.n)
+				g.buf.WriteString(Tok(g.n))
+			}
+			g.buf.WriteString("</div>")
+			return p
+		}
+		body.Kids = append(body.Kids, para(a, body))
+		w := &Box{St: Style{BI: "auto", BB: "auto", BA: "auto", Orph: 2, Wid: 2, PB: pb, BBw: bbw}}
+		fmt.Fprintf(&g.buf, `<div style="padding:0 0 %spx;border-bottom:%spx solid">`, fnum(pb), fnum(bbw))
+		rest := lines - a - short
+		if rest < 1 {
+			rest = 1
+		}
+		for rest > 0 {
+			n := 1 + r.Intn(rest)
+			w.Kids = append(w.Kids, para(n, w))
+			rest -= n
+		}
+		g.buf.WriteString("</div>")
+		body.Kids = append(body.Kids, w)
+		for i := r.Intn(3); i > 0; i-- {
+			body.Kids = append(body.Kids, para(1+r.Intn(3), body))
+		}
+		g.feat["wrapper-bottom-decoration"] = true
 	}
 	for i := 0; i < k; i++ {
 		if o.LongParent {
